@@ -401,7 +401,7 @@ def no_new_keys(t, t0, key):
 
 
 CONN_OBJ = 'bumble.controller:Connection#obj'
-model(CONN_OBJ, fields=dict(handle=Int, peer_address=ADDR))
+model(CONN_OBJ, fields=dict(handle=Int, peer_address=ADDR, self_address=ADDR, role=IntRange(0, 1)))
 
 contract(
     'bumble.controller:Controller.on_le_disconnected',
